@@ -55,6 +55,9 @@ def components():
     add('m0i', lambda i: [('d%d' % i, DM(b'\x00', incl=True))])
     add('rx', lambda i: [('d%d' % i, DR(b'X+', incl=True))])
     add('rxy', lambda i: [('d%d' % i, DR(b'[XY]', incl=True))])
+    # expressions compiled WITH flags: the flags belong to the delimiter as much as the pattern text does
+    add('rxfi', lambda i: [('d%d' % i, DR(b'x', incl=True, flags='I'))])
+    add('rxfs', lambda i: [('d%d' % i, DR(b'X.', incl=True, flags='S'))])
     add('rxlb', lambda i: [('d%d' % i, DR(b'(?<!Y)X', incl=True))])      # a delimiter that looks at the byte BEFORE it
     add('rxwb', lambda i: [('d%d' % i, DR(b'\\bX', incl=True))])
     add('eos', lambda i: [('d%d' % i, DEOS())])
@@ -117,6 +120,9 @@ def components():
     add('su', lambda i: [('l%d' % i, S(I(1), until={'u': 'last_eq', 'v': 0}))])
     add('sur', lambda i: [('l%d' % i, S(R(SUB), until={'u': 'last_eq', 'attr': 'x', 'v': 0}))])
     add('sul', lambda i: [('l%d' % i, S(I(1), until={'u': 'len_eq', 'v': 2}))])
+    # conditions whose result is a truth VALUE, not a bool (a masked flag bit, the element itself)
+    add('suf', lambda i: [('l%d' % i, S(I(1), until={'u': 'last_and', 'v': 2}))])
+    add('suv', lambda i: [('l%d' % i, S(I(1), until={'u': 'last_val'}))])
     add('sw', lambda i: [('t%d' % i, I(1)), ('n%d' % i, I(1)), ('l%d' % i, S(I(1), F('n%d' % i), when=F('t%d' % i)))])
     add('swe', lambda i: [('t%d' % i, I(1)), ('l%d' % i, S(I(1), C(2), when=BIN('eq', F('t%d' % i), C(1))))])
     add('suw', lambda i: [('t%d' % i, I(1)), ('l%d' % i, S(I(1), until={'u': 'last_eq', 'v': 0}, when=F('t%d' % i), wsp='lambda'))])
@@ -430,6 +436,10 @@ def marker_bytes(P):
                 out.update(node['m'])
             elif node['mode'] == 'regex':
                 out.update(b for b in node['pat'] if chr(b).isalpha())
+                if 'I' in (node.get('flags') or ''):
+                    out.update(ord(chr(b).swapcase()) for b in node['pat'] if chr(b).isalpha())
+                if 'S' in (node.get('flags') or ''):
+                    out.add(0x0a)
         elif node['k'] == 'ref':
             pf(node['pkt'])
         elif node['k'] == 'refsel':
